@@ -21,16 +21,25 @@ K32_FUNCS = [dict(fn='secp256k1_scalar_mul_512', short='scalar8x32_mul_512', def
              dict(fn='secp256k1_scalar_sqr_512', short='scalar8x32_sqr_512', defines=W32, style='bind'),
              dict(fn='secp256k1_scalar_check_overflow', short='scalar8x32_check_overflow', defines=W32, style='let'),
              dict(fn='secp256k1_scalar_reduce_512', short='scalar8x32_reduce_512', defines=W32, style='bind', deps=['scalar8x32_check_overflow'], inl=['secp256k1_scalar_reduce']),
+             dict(fn='secp256k1_fe_mul_inner', short='fe10x26_mul_inner', defines=W32, style='bind'),
+             dict(fn='secp256k1_fe_sqr_inner', short='fe10x26_sqr_inner', defines=W32, style='bind'),
              dict(fn='secp256k1_scalar_mul', short='scalar8x32_mul', defines=W32, style='bind', cps=['scalar8x32_mul_512', 'scalar8x32_reduce_512']),
              dict(fn='secp256k1_scalar_sqr', short='scalar8x32_sqr', defines=W32, style='bind', cps=['scalar8x32_sqr_512', 'scalar8x32_reduce_512'])]
 K32_PROOFS = [('scalar8x32_mul_512', 'Kernel/Scalar8x32Mul512.vo', 'scalar8x32_mul_512_correct'),
               ('scalar8x32_sqr_512', 'Kernel/Scalar8x32Mul512.vo', 'scalar8x32_sqr_512_correct'),
               ('scalar8x32_check_overflow', 'Kernel/Scalar8x32Check.vo', 'scalar8x32_check_overflow_correct'),
               ('scalar8x32_reduce_512', 'Kernel/Scalar8x32Reduce512.vo', 'scalar8x32_reduce_512_correct'),
+              ('fe10x26_mul_inner', 'Kernel/Field10x26.vo', 'fe10x26_mul_inner_correct'), ('fe10x26_sqr_inner', 'Kernel/Field10x26.vo', 'fe10x26_sqr_inner_correct'),
               ('scalar8x32_mul', 'Kernel/Scalar8x32Mul.vo', 'scalar8x32_mul_correct'), ('scalar8x32_sqr', 'Kernel/Scalar8x32Mul.vo', 'scalar8x32_sqr_correct')]
-K32_SHAPES = {'scalar8x32_mul_512': 16, 'scalar8x32_sqr_512': 8, 'scalar8x32_reduce_512': 16, 'scalar8x32_check_overflow': 8, 'scalar8x32_mul': 16, 'scalar8x32_sqr': 8}
+K32_SHAPES = {'scalar8x32_mul_512': 16, 'scalar8x32_sqr_512': 8, 'scalar8x32_reduce_512': 16, 'scalar8x32_check_overflow': 8, 'scalar8x32_mul': 16, 'scalar8x32_sqr': 8, 'fe10x26_mul_inner': 'F20', 'fe10x26_sqr_inner': 'F10'}
 N32 = [0xD0364141, 0xBFD25E8C, 0xAF48A03B, 0xBAAEDCE6, 0xFFFFFFFE, 0xFFFFFFFF, 0xFFFFFFFF, 0xFFFFFFFF]
 def raw32_inputs(rng, n):
+    if isinstance(n, str):      # 10x26 field limbs within the magnitude contract: below 2^30, every tenth below 2^26
+        out = []
+        for j in range(int(n[1:])):
+            w = 26 if j % 10 == 9 else 30
+            out.append(rng.choice([0, 1, (1 << w) - 1, (1 << w) - 2, (1 << 26) - 1 if w == 30 else (1 << 22) - 1, rng.bits(w), 1 << (w - 1)]))
+        return out
     c = rng.below(6)
     if c == 0: return [rng.choice([0, 1, 0xFFFFFFFF, 0xFFFFFFFE, 0x7FFFFFFF, 0x80000000, rng.bits(32)]) for _ in range(n)]
     if c == 1: return [0xFFFFFFFF] * n
@@ -289,9 +298,9 @@ def kernel_obligations(chk):
     impl32 = vlib.build_impl(chk.dir, 'impl_k32', ['-DUSE_FORCE_WIDEMUL_INT64=1'])
     cases = []
     for key, (ok, msg) in k32.items():
-        if not ok: continue
+        if not ok or key not in K32_SHAPES: continue
         for i in range(chk.scale(400, 20000)):
-            cases.append(('raw%s %s' % (key[6:], ' '.join('#%d' % x for x in raw32_inputs(chk.rng, K32_SHAPES[key]))), 'translator_validation_' + key))
+            cases.append(('raw%s %s' % (key[6:] if key.startswith('scalar') else '_' + key, ' '.join('#%d' % x for x in raw32_inputs(chk.rng, K32_SHAPES[key]))), 'translator_validation_' + key))
     chk.correspond(impl32, gmodel, 'translator validation: generated Gallina (8x32 scalar code) vs the int64 build', cases=cases)
 
 if __name__ == '__main__':
